@@ -278,16 +278,33 @@ def r5_handle(ctx):
     b = coroutine_of(ctx, 'C16.R5', SH + 'ServerHandle::shutdown')
     if b is not None:
         snd = blocks_calling(b, 'tokio::sync::mpsc::bounded::Sender::send')
-        isok = [(bb, t) for bb, t in b.calls() if callee(t) == 'core::result::Result::is_ok']
+        # whichever way the outcome of the send is tested: `is_ok()`, `is_err()` + early return, a `match` / `if let` on the Result
+        tests = [(bb, t, (callee(t) or '').split('::')[-1]) for bb, t in b.calls() if callee(t) in ('core::result::Result::is_ok', 'core::result::Result::is_err')]
         aw = [bb for bb, t in b.calls() if callee(t) == 'core::future::into_future::IntoFuture::into_future' and 'oneshot::Receiver' in t['aty'][0]]
         ok = False
-        if snd and isok and aw:
-            d = isok[0][1]['dest']['l']
+        decisions = []     # (delivered target, [not delivered targets])
+        for _, t, m in tests:
+            d = t['dest']['l']
             for sb in b.live_blocks():
                 w = b.term(sb)
-                if w and w['k'] == 'switch' and op_place(w['d']) and op_place(w['d'])['l'] == d:
+                if w and w['k'] == 'switch' and 'enum' not in w and op_place(w['d']) and op_place(w['d'])['l'] == d:
                     true_t, false_t = w['else'], [tg for v, tg in w['ts'] if v == '0']
-                    ok = aw[0] in b.reachable(true_t, avoid=false_t) and not any(aw[0] in b.reachable(f, avoid=[true_t]) for f in false_t)
+                    decisions.append((true_t, false_t) if m == 'is_ok' else (false_t[0], [true_t]) if false_t else None)
+        if snd and not tests:
+            from ..tables import switch_edges
+            for sb in b.live_blocks():
+                w = b.term(sb)
+                if w and w['k'] == 'switch' and 'enum' in w and strip_generics(w['enum']) == 'core::result::Result' and 'SendError' in (b.locals[w['src']['l']] or ''):
+                    e = switch_edges(w)
+                    if 'Ok' in e or 'Err' in e:
+                        okt = e.get('Ok', w.get('else'))
+                        errt = e.get('Err', w.get('else'))
+                        decisions.append((okt, [errt]))
+        for dec in decisions:
+            if dec is None or not aw:
+                continue
+            true_t, false_t = dec
+            ok = aw[0] in b.reachable(true_t, avoid=false_t) and not any(aw[0] in b.reachable(f, avoid=[true_t]) for f in false_t)
         ctx.ob('C16.R5', 'awaits-completion-iff-delivered', ok, b.loc(aw[0]) if aw else b.loc(),
                'the oneshot completion is awaited on (and only on) the is_ok() branch of sending the Shutdown command')
     inner = [x for x in ctx.fb.bodies(CR) if x.is_coroutine and x.nroot.endswith('IntoFuture>::into_future') and 'ServerHandle' in x.nroot]
